@@ -58,6 +58,17 @@ func validatorCall(c *core.Ctx, fn *ssa.Function, argPath string) (*ssa.Call, *s
 	return nil, nil
 }
 
+// rangesOverParam: fn loops over the runes/bytes of its first parameter.
+func rangesOverParam(fn *ssa.Function) bool {
+	found := false
+	an.Instrs(fn, func(in ssa.Instruction) {
+		if v, ok := in.(ssa.Value); ok && an.PathOf(v) == "rangeval("+paramPath(fn, 0)+")" {
+			found = true
+		}
+	})
+	return found
+}
+
 func paramPath(fn *ssa.Function, i int) string { return "p:" + fn.Params[i].Name() }
 
 func runValDom(c *core.Ctx) {
@@ -93,6 +104,14 @@ func runValDom(c *core.Ctx) {
 		}
 		// charset: callee applied to the same parameter
 		_, hx := validatorCall(c, v, paramPath(v, 0))
+		// the character test may sit one or two helpers further down (validX → validHexOfLen → validHexString)
+		for depth := 0; hx != nil && depth < 3 && !rangesOverParam(hx); depth++ {
+			_, next := validatorCall(c, hx, paramPath(hx, 0))
+			if next == nil {
+				break
+			}
+			hx = next
+		}
 		if hx == nil {
 			c.Unknown(nil, fname(c, v), "charset("+fl.field+")", P.Pos(v.Pos()), "no charset function applied to the parameter")
 			continue
@@ -889,11 +908,27 @@ func runValSlice(c *core.Ctx) {
 			c.Check(ok, nil, fname(c, m), "delegate[Event]", P.Pos(call.Pos()), "msg.Event.Valid() false ⇒ invalid", why)
 			continue
 		}
-		call := allFuncCall(c, m, "recv."+row.field)
-		if call == nil {
+		// the all-quantifier over the filters, in Valid itself or in a predicate helper
+		var occ *an.Occ
+		an.Region(m, func(g *ssa.Function) bool { return isAllQuantifier(g) }, func(o an.Occ) {
+			cl, isCall := o.In.(*ssa.Call)
+			if !isCall || len(cl.Call.Args) != 2 {
+				return
+			}
+			callee := an.StaticCallee(&cl.Call)
+			if callee == nil || !c.P.InModule(callee) || !isAllQuantifier(callee) {
+				return
+			}
+			if o.Path(cl.Call.Args[0]) == "recv."+row.field {
+				o := o
+				occ = &o
+			}
+		})
+		if occ == nil {
 			c.Bad(nil, fname(c, m), "delegate[filters]", P.Pos(m.Pos()), "does not validate every filter")
 			continue
 		}
+		call := occ.In.(*ssa.Call)
 		inner := funcValue(call.Call.Args[1])
 		innerOK := false
 		if inner != nil {
@@ -910,8 +945,12 @@ func runValSlice(c *core.Ctx) {
 				}
 			}
 		}
-		ok, why := impliesFalse(c, m, call)
-		c.Check(ok && innerOK, nil, fname(c, m), "delegate[filters]", P.Pos(call.Pos()), "every filter's Valid() must hold", fmt.Sprintf("forced=%v (%s) per-filter Valid=%v", ok, why, innerOK))
+		// a false verdict of the quantifier forces "invalid" — through every helper level
+		ok, why := impliesFalse(c, call.Parent(), call)
+		for i := len(occ.Chain) - 1; i >= 0 && ok; i-- {
+			ok, why = impliesFalse(c, occ.Chain[i].Parent(), occ.Chain[i])
+		}
+		c.Check(ok && innerOK, nil, fname(c, m), "delegate[filters]", P.Pos(occ.Site().Pos()), "every filter's Valid() must hold", fmt.Sprintf("forced=%v (%s) per-filter Valid=%v", ok, why, innerOK))
 		// non-empty filter list
 		fr := an.ConstFrame("len(recv." + row.field + ")")
 		t, _, n, okp := fr.FuncBoolMeaning(m, 0, nil, nil)
